@@ -123,6 +123,20 @@ class World:
             del self.local[parts]
             return Const(None)
         f["unlink"] = py("unlink", unlink)
+        def children():
+            kids = sorted({p_[:len(parts) + 1] for p_ in list(self.local) + list(self.dirs) if len(p_) > len(parts) and p_[:len(parts)] == parts})
+            return [self.path(k_) for k_ in kids]
+
+        def glob(I, a, kw):
+            import fnmatch
+            pat = a[0].v if a and isinstance(a[0], Const) and isinstance(a[0].v, str) else None
+            if pat is None or "/" in pat or "**" in pat:
+                raise ShapeError(f"model path: glob({a[0]!r:.30})")
+            return ListLit([c_ for c_ in children() if fnmatch.fnmatchcase(c_.fields["name"].v, pat)])
+        f["iterdir"] = py("iterdir", lambda I, a, kw: ListLit(children()))
+        f["glob"] = py("glob", glob)
+        f["as_uri"] = py("as_uri", lambda I, a, kw: Const("file:///" + "/".join(parts)))
+        f["as_posix"] = py("as_posix", lambda I, a, kw: Const("/" + "/".join(parts)))
         f["__fspath__"] = py("__fspath__", lambda I, a, kw: Const("/" + "/".join(parts)))
         f["__str__"] = py("__str__", lambda I, a, kw: Const("/" + "/".join(parts)))
         return o
